@@ -1,6 +1,15 @@
 import re,sys,os,subprocess,json,tempfile,shutil
 from concurrent.futures import ThreadPoolExecutor
 HERE='/verif'
+# work from a snapshot of the machinery, so that it can be edited while this runs
+SNAP=tempfile.mkdtemp(prefix='hv_snap_')
+for c in ('bin','hv','reference','fixtures','known_findings.json','properties.jsonl'):
+    src=os.path.join('/verif',c)
+    if os.path.isdir(src): shutil.copytree(src,os.path.join(SNAP,c),ignore=shutil.ignore_patterns('__pycache__'))
+    elif os.path.exists(src): shutil.copy(src,os.path.join(SNAP,c))
+HERE=SNAP
+import atexit
+atexit.register(lambda: shutil.rmtree(SNAP,ignore_errors=True))
 def split(patch):
     txt=open(patch).read()
     out=[]
